@@ -6,7 +6,7 @@ ART=/tmp/wtart_$ID
 cd "$WT" || exit 2
 mkdir -p $ART
 for f in _wtboot demo_*.py NOTES.md; do [ -e "$f" ] && mv "$f" $ART/; done
-PYTHONPATH=$ART/_wtboot /venv/bin/python -m pytest -q -p no:cacheprovider --timeout=900 --continue-on-collection-errors -n 14 --junitxml=/tmp/suite_$ID.xml > /tmp/suite_$ID.log 2>&1
+OMP_WAIT_POLICY=PASSIVE PYTHONPATH=$ART/_wtboot /venv/bin/python -m pytest -q -p no:cacheprovider --timeout=900 --continue-on-collection-errors -n 6 --junitxml=/tmp/suite_$ID.xml > /tmp/suite_$ID.log 2>&1
 for f in $ART/_wtboot $ART/demo_*.py $ART/NOTES.md; do [ -e "$f" ] && mv "$f" "$WT"/; done
 /venv/bin/python /verif/tools/cmpbase.py /tmp/suite_$ID.xml > /verif/seeded/$ID/suite.txt 2>&1
 tail -3 /verif/seeded/$ID/suite.txt
